@@ -13,6 +13,7 @@ import re
 
 from ..build import AnalysisBroken
 from ..util import site, guards, switch_table, const_value, stores_to_field, local_defs
+from ..maxplus import Eval, Unsupported, atom, vadd, vneg, show
 
 MEETUPS = ("aln_seqseq_meetup", "aln_seqprofile_meetup", "aln_profileprofile_meetup")
 STATES = ("a", "ga", "gb")
@@ -432,11 +433,307 @@ def r07d(ck, prog):
                              "sub-rectangle differently from the others" % (name, l, ref), prog.config)
 
 
+# --------------------------------------------------------------------------- R07e: recurrences agree
+def _float_effects(stmt):
+    """assignment nodes under stmt whose target is float state (a float local or a float field / element)"""
+    out = []
+    for x in stmt.walk():
+        if (x.k == "BinaryOperator" and x.d["op"] == "=") or x.k == "CompoundAssignOperator":
+            if x.kids[0].strip(casts=True).ty in ("float", "double"):
+                out.append(x)
+        elif x.k == "DeclStmt":
+            for dd in x.d["decls"]:
+                if dd.get("init") and dd.get("ty") in ("float", "double", "const float"):
+                    out.append(x)
+    return out
+
+
+def _idx_canon(F):
+    def canon(n, depth=0):
+        n = n.strip(casts=True)
+        if n.k == "IntegerLiteral":
+            return str(n.cv)
+        if n.k == "MemberExpr" and n.d.get("rec") == "aln_mem":
+            return n.d["field"]
+        if n.k == "DeclRefExpr":
+            if n.d.get("dk") == "Var" and not n.d.get("g") and depth < 3:
+                defs = local_defs(F, n.d["did"])
+                if len(defs) == 1 and defs[0][0] is not None:
+                    d0 = defs[0][0].strip(casts=True)
+                    if d0.k == "MemberExpr" and d0.d.get("rec") == "aln_mem":
+                        return d0.d["field"]
+            return n.d["name"]
+        if n.k == "BinaryOperator" and n.d["op"] in ("+", "-"):
+            return "%s%s%s" % (canon(n.kids[0], depth), n.d["op"], canon(n.kids[1], depth))
+        raise Unsupported("row index %s" % n.text()[:40])
+    return canon
+
+
+def kernel_summary(F, sigma):
+    """[(segment path, {output name: max-plus value})] for one kernel pass under the border assignment sigma
+    ({'startb!=0': bool, 'endb!=len_b': bool}); segments are the straight-line pieces between/inside the loops"""
+    canon = _idx_canon(F)
+    segs = []
+    where = {}
+
+    def new_eval():
+        return Eval(F, lambda b: "struct states" in b.strip(casts=True).ty, canon)
+
+    def run(stmts, ev, path):
+        nloop = 0
+        for st in stmts:
+            k = st.k
+            if k in ("NullStmt", "ReturnStmt"):
+                continue
+            if k == "CompoundStmt":
+                nloop = run_block(st.kids, ev, path, nloop)
+                continue
+            nloop = run_block([st], ev, path, nloop)
+        return ev
+
+    def run_block(stmts, ev, path, nloop):
+        for st in stmts:
+            k = st.k
+            if k in ("NullStmt", "ReturnStmt"):
+                continue
+            if k == "CompoundStmt":
+                nloop = run_block(st.kids, ev, path, nloop)
+            elif k == "DeclStmt":
+                for kid in st.kids:
+                    if kid.role == "declinit" and kid.decl.get("ty") in ("float", "double", "const float"):
+                        if any(m.d.get("field") in ("gpo", "gpe", "tgpe") for m in kid.find("MemberExpr")):
+                            continue        # a penalty scalar: resolved at its uses (Eval.penalty_class)
+                        if kid.strip(casts=True).k in ("IntegerLiteral", "FloatingLiteral"):
+                            continue        # `register float pa = 0;` - a placeholder, not part of the recurrence
+                        ev.loc[kid.decl["did"]] = ev.ev(kid)
+                        ev.names[kid.decl["did"]] = kid.decl["name"]
+            elif k == "BinaryOperator" and st.d["op"] == "=":
+                if st.kids[0].strip(casts=True).ty in ("float", "double"):
+                    ev.assign(st.kids[0], ev.ev(st.kids[1]))
+            elif k == "CompoundAssignOperator":
+                if st.kids[0].strip(casts=True).ty in ("float", "double"):
+                    if st.d["op"] not in ("+=", "-="):
+                        raise Unsupported("compound assignment %s" % st.text()[:40])
+                    r = ev.ev(st.kids[1])
+                    ev.assign(st.kids[0], vadd(ev.ev(st.kids[0]), r if st.d["op"] == "+=" else vneg(r)))
+            elif k == "UnaryOperator" and st.d["op"] in ("++", "--"):
+                if st.kids[0].strip(casts=True).ty in ("float", "double"):
+                    raise Unsupported("float increment")
+            elif k == "IfStmt":
+                r = _border_pred(F, st.child("cond"))
+                if r is not None:
+                    pred, pol = r
+                    if pred not in sigma:
+                        raise Unsupported("border test %s" % pred)
+                    br = st.child("then") if sigma[pred] == pol else st.child("else")
+                    if br is not None:
+                        nloop = run_block([br], ev, path, nloop)
+                elif _float_effects(st):
+                    raise Unsupported("float state changed under the test %s" % st.child("cond").text()[:40])
+            elif k in ("ForStmt", "WhileStmt", "DoStmt"):
+                body = st.child("body")
+                eff = _float_effects(body)
+                if not eff:
+                    continue
+                if all(e.k == "CompoundAssignOperator" and e.d["op"] == "+=" and e.kids[1].strip(casts=True).k == "BinaryOperator"
+                       and e.kids[1].strip(casts=True).d["op"] == "*" for e in eff):
+                    for e in eff:       # the score of the cell accumulated over the letters of a column
+                        ev.assign(e.kids[0], vadd(ev.ev(e.kids[0]), ev.ev(e.kids[1])))
+                    continue
+                nloop += 1
+                # the straight-line piece before the loop ends here; the piece after it starts from fresh entry values
+                segs.append(("%s#%d" % (path, nloop - 1), ev.outputs()))
+                where.update({("%s#%d" % (path, nloop - 1), k): v for k, v in ev.where.items()})
+                ev.loc.clear()
+                ev.cells.clear()
+                ev.where.clear()
+                sub = new_eval()
+                p2 = "%s/L%d" % (path, nloop)
+                n2 = run_block([body], sub, p2, 0)
+                segs.append(("%s#%d" % (p2, n2), sub.outputs()))
+                where.update({("%s#%d" % (p2, n2), k): v for k, v in sub.where.items()})
+            elif k in ("CallExpr",):
+                raise Unsupported("call %s" % st.text()[:40])
+            else:
+                if _float_effects(st):
+                    raise Unsupported("%s changes float state" % k)
+        return nloop
+
+    top = new_eval()
+    n = run_block([F.body], top, "", 0)
+    segs.append(("#%d" % n, top.outputs()))
+    where.update({("#%d" % n, k): v for k, v in top.where.items()})
+    # locals that no piece reads at its entry are temporaries of one piece, not part of the carried state
+    carried = set()
+    for _, o in segs:
+        for v in o.values():
+            for alt in v:
+                carried |= {a[:-3] for a, _ in alt if a.endswith("@in")}
+    return segs, carried, where
+
+
+def r07e(ck, prog):
+    """the three kernels compute the same recurrence: for each pass (forward / backward) and each border situation,
+    every straight-line piece of the pass - first row, start of a row, interior cell, last cell - leaves the same
+    max-plus value in every DP cell and carried local, after mapping each kernel's penalty source to its class
+    (open / extension / terminal) and its score source to S"""
+    import itertools
+    preds = ("startb!=0", "endb!=len_b")
+    for suf in ("foward", "backward"):
+        sums = {}
+        wheres = {}
+        carried = set()
+        for kk in KINDS_:
+            F = prog.fn(kk + suf)
+            for vals in itertools.product((True, False), repeat=2):
+                sigma = dict(zip(preds, vals))
+                try:
+                    sums[(kk, vals)], c, wh = kernel_summary(F, sigma)
+                    carried |= c
+                    wheres[(kk, vals)] = wh
+                except Unsupported as e:
+                    raise AnalysisBroken("R07e: %s is not in the max-plus fragment (%s); the recurrences are not compared" % (kk + suf, e))
+        for vals in itertools.product((True, False), repeat=2):
+            rows = {kk: [(p, {k: v for k, v in o.items() if k.startswith("s[") or k in carried}) for p, o in sums[(kk, vals)]] for kk in KINDS_}
+            shapes = {kk: [(p, tuple(sorted(o))) for p, o in rows[kk]] for kk in KINDS_}
+            ref_shape = shapes[KINDS_[0]]
+            if any(shapes[kk] != ref_shape for kk in KINDS_):
+                diff = [kk + suf for kk in KINDS_ if shapes[kk] != ref_shape]
+                raise AnalysisBroken("R07e: the %s passes are not organised alike (%s differs from %s in its loops or in the cells / locals it "
+                                     "sets); the recurrences are not compared" % (suf, diff, KINDS_[0] + suf))
+            label = ", ".join("%s=%s" % (p, v) for p, v in zip(preds, vals))
+            for si, (path, _) in enumerate(ref_shape):
+                for name in sorted(rows[KINDS_[0]][si][1]):
+                    vs = {kk: rows[kk][si][1][name] for kk in KINDS_}
+                    allv = list(vs.values())
+                    ref = max(allv, key=lambda v: allv.count(v))
+                    ck.inst("R07e", site(prog, prog.fn(KINDS_[0] + suf), "%s %s" % (path or "/", name)),
+                            "%s pass [%s] piece %s: %s = %s in all three kernels" % (suf, label, path or "/", name, show(ref)), prog.config)
+                    for kk in KINDS_:
+                        if vs[kk] != ref:
+                            vocab = lambda k2: {a for v in rows[k2][si][1].values() for alt in v for a, _ in alt}
+                            foreign = vocab(kk) - set().union(*[vocab(k2) for k2 in KINDS_ if vs[k2] == ref])
+                            if foreign:
+                                raise AnalysisBroken("R07e: %s computes %s in piece %s from %s, which its siblings do not use there: "
+                                                     "the pass is organised differently and the recurrences are not compared"
+                                                     % (kk + suf, name, path, sorted(foreign)))
+                            ck.violation("R07e", "R07e/%s/%s/%s/%s" % (kk + suf, path or "top", name, "".join("TF"[not v] for v in vals)),
+                                         site(prog, wheres[(kk, vals)].get((path, name), prog.fn(kk + suf)), name),
+                                         "%s, piece %s with %s: %s = %s, but %s in its sibling kernels: this kernel scores an alignment "
+                                         "differently from the recurrence the other two implement" % (kk + suf, path or "/", label, name, show(vs[kk]), show(ref)),
+                                         prog.config)
+
+
+# --------------------------------------------------------------------------- R07f: meet-in-the-middle candidates agree
+def meetup_candidates(F, sigma):
+    """[(piece, transition code, max-plus value of the candidate)] of a meetup function under the border assignment"""
+    def base_canon(n):
+        n = n.strip(casts=True)
+        if n.k == "DeclRefExpr":
+            defs = local_defs(F, n.d["did"])
+            if len(defs) == 1 and defs[0][0] is not None:
+                d0 = defs[0][0].strip(casts=True)
+                if d0.k == "MemberExpr" and d0.d.get("rec") == "aln_mem":
+                    return d0.d["field"]
+            return n.d["name"]
+        if n.k == "MemberExpr" and n.d.get("rec") == "aln_mem":
+            return n.d["field"]
+        raise Unsupported("DP row %s" % n.text()[:30])
+
+    class MEval(Eval):
+        def ev(self, n):
+            n0 = n.strip(casts=True)
+            if n0.k == "MemberExpr":
+                b = n0.kids[0].strip(casts=True)
+                if b.k == "ArraySubscriptExpr" and "struct states" in b.kids[0].strip(casts=True).ty:
+                    return atom("%s.%s" % (base_canon(b.kids[0]), n0.d["field"]))
+            return Eval.ev(self, n)
+
+    ev = MEval(F, lambda b: False, lambda i: "i")
+    out = []
+
+    def walk(stmts, piece):
+        for st in stmts:
+            if st.k == "CompoundStmt":
+                walk(st.kids, piece)
+            elif st.k in ("ForStmt", "WhileStmt", "DoStmt"):
+                walk([st.child("body")], "loop")
+            elif st.k == "IfStmt":
+                r = _border_pred(F, st.child("cond"))
+                if r is not None:
+                    pred, pol = r
+                    if pred not in sigma:
+                        raise Unsupported("border test %s" % pred)
+                    br = st.child("then") if sigma[pred] == pol else st.child("else")
+                    if br is not None:
+                        walk([br], piece)
+                    continue
+                c = st.child("cond").strip(casts=True)
+                if c.k == "BinaryOperator" and c.d["op"] in (">", ">=") and c.kids[0].strip(casts=True).ty in ("float", "double"):
+                    codes = [a.kids[1].cv for a in st.child("then").find("BinaryOperator") if a.d["op"] == "=" and a.kids[0].strip().ty == "int"
+                             and a.kids[1].cv is not None and a.kids[0].strip().k == "DeclRefExpr" and "trans" in a.kids[0].strip().d["name"]]
+                    stores = [a for a in st.child("then").find("BinaryOperator") if a.d["op"] == "=" and a.kids[0].strip().ty in ("float", "double")]
+                    if len(codes) != 1 or len(stores) != 1:
+                        raise Unsupported("candidate at line %d sets %d codes / %d maxima" % (st.line, len(codes), len(stores)))
+                    v, v2 = ev.ev(c.kids[0]), ev.ev(stores[0].kids[1])
+                    out.append((piece if piece else "end", codes[0], v, v2, st))
+                elif list(st.find("IfStmt"))[1:]:
+                    raise Unsupported("candidates under the test %s" % c.text()[:40])
+    walk([F.body], "")
+    return out
+
+
+def r07f(ck, prog):
+    """the three meet-in-the-middle functions price every transition alike: for each border situation and each transition
+    code, forward state + backward state - penalty is the same max-plus form in all three (penalty sources mapped to
+    open / extension / terminal), and the value compared is the value stored as the new maximum"""
+    import itertools
+    preds = ("startb!=0", "endb!=len_b")
+    n = 0
+    for vals in itertools.product((True, False), repeat=2):
+        sigma = dict(zip(preds, vals))
+        label = ", ".join("%s=%s" % (p, v) for p, v in zip(preds, vals))
+        tabs = {}
+        for name in MEETUPS:
+            F = prog.fn(name)
+            try:
+                cands = meetup_candidates(F, sigma)
+            except Unsupported as e:
+                raise AnalysisBroken("R07f: %s is not in the max-plus fragment (%s); the candidates are not compared" % (name, e))
+            if len(cands) < 6:
+                raise AnalysisBroken("R07f: only %d candidates recognised in %s" % (len(cands), name))
+            for piece, code, v, v2, st in cands:
+                if v != v2:
+                    ck.violation("R07f", "R07f/%s/%s/%d/stored" % (name, piece, code), site(prog, st, "transition %d" % code),
+                                 "%s: the candidate for transition %d compares %s but stores %s as the new maximum" % (name, code, show(v), show(v2)), prog.config)
+            tabs[name] = cands
+        keys = {name: sorted((p, c) for p, c, _, _, _ in tabs[name]) for name in MEETUPS}
+        if len({tuple(k) for k in keys.values()}) != 1:
+            raise AnalysisBroken("R07f: the meetup functions do not offer the same candidates under %s (%s); not compared (R07a decides the code sets)" % (label, keys))
+        for (piece, code) in keys[MEETUPS[0]]:
+            vs = {name: [v for p, c, v, _, _ in tabs[name] if (p, c) == (piece, code)] for name in MEETUPS}
+            allv = [tuple(v) for v in vs.values()]
+            ref = max(allv, key=lambda v: allv.count(v))
+            n += 1
+            ck.inst("R07f", site(prog, prog.fn(MEETUPS[0]), "%s code %d" % (piece, code)),
+                    "[%s] %s candidate for transition %d = %s in all three" % (label, piece, code, " / ".join(show(v) for v in ref)), prog.config)
+            for name in MEETUPS:
+                if tuple(vs[name]) != ref:
+                    st = [s_ for p, c, _, _, s_ in tabs[name] if (p, c) == (piece, code)][0]
+                    ck.violation("R07f", "R07f/%s/%s/%d/%s" % (name, piece, code, "".join("TF"[not v] for v in vals)), site(prog, st, "transition %d" % code),
+                                 "%s, %s candidate for transition %d with %s: %s, but %s in its sibling kernels: the split point is chosen with "
+                                 "a different price than the passes computed" % (name, piece, code, label, " / ".join(show(v) for v in vs[name]),
+                                                                                " / ".join(show(v) for v in ref)), prog.config)
+    ck.floor("R07f", n, 30, "meetup candidates")
+
+
 KINDS_ = ("aln_seqseq_", "aln_seqprofile_", "aln_profileprofile_")
 
 
 def run(ck, progs):
     describe(ck)
+    ck.rule("R07e", "the three forward kernels implement one recurrence and the three backward kernels one: every straight-line piece leaves the same max-plus normal form in every DP cell and carried local (penalties mapped to open/extension/terminal classes, scores to S)")
+    ck.rule("R07f", "the three meetup functions price each transition alike under every border situation, and store the value they compared")
     ck.rule("R07d", "the three forward kernels test the sub-rectangle borders (startb / endb != len_b) in the same order, and so do the three backward kernels")
     ck.rule("R07c", "group weighting: each profile's gap penalties are scaled by the size of the other group, for both sides, on the branch where that side is a profile")
     from . import c02
@@ -445,6 +742,8 @@ def run(ck, progs):
         ck.attempt(r07b, ck, prog)
         ck.attempt(r07c, ck, prog)
         ck.attempt(r07d, ck, prog)
+        ck.attempt(r07e, ck, prog)
+        ck.attempt(r07f, ck, prog)
         before = len(ck.instances)
         ck.attempt(c02.r02g, ck, prog)
         for i in ck.instances[before:]:
